@@ -92,3 +92,117 @@ Print Assumptions C09_one_frame.
 Theorem C09_datagram_never_yields_sli : forall f x, decode_frame f <> Ok (PSLI x).
 Proof. exact decode_frame_never_sli. Qed.
 Print Assumptions C09_datagram_never_yields_sli.
+
+(* BEGIN source-translation (generated by tools/mksourceprops.py; do not edit by hand) *)
+(* the re-encoding theorems above restated on the functions translated from the Go source text on this run.
+   Gen/Funcs.v (module GoSrc) is written by srcgen/trans.go from /repo on every run; Lib/GoSem.v gives the meaning of its primitives. *)
+From RTCP Require Import Proofs.Tactics Lib.GoSem Gen.Funcs Check.GoOpaque Proofs.GoSemFacts Proofs.HeaderProofs
+  Model.Header Model.Reports Model.Sdes Model.ByeApp Model.Feedback Model.Twcc Model.Ccfb Model.Remb Model.Xr Model.Packet
+  Spec.Enc Spec.XrSpec Spec.Laws Proofs.Dgram Proofs.Assemble Proofs.Guards Proofs.PacketLevel Proofs.Reencode
+  Proofs.Misc Proofs.Extras Proofs.EncFeedback Proofs.Image1 Proofs.Image2 Proofs.Image3 Proofs.EncTwcc Proofs.TwccCorollaries Proofs.Total1 Proofs.Total2 Proofs.Total3
+  Proofs.SourceEquiv Proofs.SrcConv Proofs.SourceSR Proofs.SourceRR Proofs.SourceSdes Proofs.SourceByeApp
+  Proofs.SourceFeedback1 Proofs.SourceFeedback2 Proofs.SourceCcfb Proofs.SourceTwccEnc Proofs.SourceTwccDec
+  Proofs.SourcePacket Proofs.SourceCompound Proofs.SourceCompoundClosed.
+From RTCP Require Import Lib.Base Lib.GoSem Gen.Consts Gen.Funcs Model.Header Model.Reports Model.Sdes Model.ByeApp Model.Feedback Model.Twcc Model.Ccfb Model.Packet Proofs.SourceEquiv Proofs.SrcConv Proofs.SourceSR Proofs.SourceRR Proofs.SourceSdes Proofs.SourceByeApp Proofs.SourceFeedback1 Proofs.SourceFeedback2 Proofs.SourceCcfb Proofs.SourceTwccEnc Proofs.SourceTwccDec Proofs.SourcePacket Proofs.SourceCompound Proofs.SourceCompoundClosed Proofs.SourceTheorems.
+Module C09_SourceTheorems.
+Import Proofs.SourceTheorems.
+Local Open Scope N_scope.
+Theorem C09_src_marshal_of_decoded_never_panics : forall b l, GoSrc.Unmarshal b = Ok l ->
+  GoSrc.Marshal l <> Panic /\ GoSrc.Marshal l <> Fuel.
+Proof. exact source_C09_marshal_of_decoded_never_panics. Qed.
+Print Assumptions C09_src_marshal_of_decoded_never_panics.
+Theorem C09_src_decode_encode_decode : forall b l, GoSrc.Unmarshal b = Ok l ->
+  exists ps, l = map src_packet ps /\
+    (src_stable_dgram b ps -> forall b', GoSrc.Marshal l = Ok b' ->
+     exists ps', GoSrc.Unmarshal b' = Ok (map src_packet ps') /\ Forall2 pkt_equiv ps ps').
+Proof. exact source_C09_decode_encode_decode. Qed.
+Print Assumptions C09_src_decode_encode_decode.
+Theorem C09_src_decode_encode_decode_eq : forall b l, GoSrc.Unmarshal b = Ok l ->
+  exists ps, l = map src_packet ps /\
+    (src_stable_dgram b ps -> Forall (fun p => forall x, p <> PXR x) ps ->
+     forall b', GoSrc.Marshal l = Ok b' -> GoSrc.Unmarshal b' = Ok l).
+Proof. exact source_C09_decode_encode_decode_eq. Qed.
+Print Assumptions C09_src_decode_encode_decode_eq.
+Theorem C09_src_datagram_never_yields_sli : forall b l x, GoSrc.Unmarshal b = Ok l ->
+  ~ In (GoSrc.Packet_SliceLossIndication x) l.
+Proof. exact source_C09_datagram_never_yields_sli. Qed.
+Print Assumptions C09_src_datagram_never_yields_sli.
+Theorem C09_src_SenderReport : forall b s, GoSrc.SenderReport_Unmarshal GoSrc.zero_SenderReport b = Ok s ->
+  (glen b mod 4 = 0)%Z -> forall b', GoSrc.SenderReport_Marshal s = Ok b' ->
+  GoSrc.SenderReport_Unmarshal GoSrc.zero_SenderReport b' = Ok s.
+Proof. exact source_C09_SenderReport. Qed.
+Print Assumptions C09_src_SenderReport.
+Theorem C09_src_ReceiverReport : forall b s, GoSrc.ReceiverReport_Unmarshal GoSrc.zero_ReceiverReport b = Ok s ->
+  (glen b mod 4 = 0)%Z -> forall b', GoSrc.ReceiverReport_Marshal s = Ok b' ->
+  GoSrc.ReceiverReport_Unmarshal GoSrc.zero_ReceiverReport b' = Ok s.
+Proof. exact source_C09_ReceiverReport. Qed.
+Print Assumptions C09_src_ReceiverReport.
+Theorem C09_src_SourceDescription : forall b s, GoSrc.SourceDescription_Unmarshal GoSrc.zero_SourceDescription b = Ok s ->
+  forall b', GoSrc.SourceDescription_Marshal s = Ok b' ->
+  GoSrc.SourceDescription_Unmarshal GoSrc.zero_SourceDescription b' = Ok s.
+Proof. exact source_C09_SourceDescription. Qed.
+Print Assumptions C09_src_SourceDescription.
+Theorem C09_src_Goodbye : forall b s, GoSrc.Goodbye_Unmarshal GoSrc.zero_Goodbye b = Ok s ->
+  forall b', GoSrc.Goodbye_Marshal s = Ok b' -> GoSrc.Goodbye_Unmarshal GoSrc.zero_Goodbye b' = Ok s.
+Proof. exact source_C09_Goodbye. Qed.
+Print Assumptions C09_src_Goodbye.
+Theorem C09_src_ApplicationDefined : forall b s,
+  GoSrc.ApplicationDefined_Unmarshal GoSrc.zero_ApplicationDefined b = Ok s ->
+  forall b', GoSrc.ApplicationDefined_Marshal s = Ok b' ->
+  GoSrc.ApplicationDefined_Unmarshal GoSrc.zero_ApplicationDefined b' = Ok s.
+Proof. exact source_C09_ApplicationDefined. Qed.
+Print Assumptions C09_src_ApplicationDefined.
+Theorem C09_src_PictureLossIndication : forall b s,
+  GoSrc.PictureLossIndication_Unmarshal GoSrc.zero_PictureLossIndication b = Ok s ->
+  forall b', GoSrc.PictureLossIndication_Marshal s = Ok b' ->
+  GoSrc.PictureLossIndication_Unmarshal GoSrc.zero_PictureLossIndication b' = Ok s.
+Proof. exact source_C09_PictureLossIndication. Qed.
+Print Assumptions C09_src_PictureLossIndication.
+Theorem C09_src_RapidResynchronizationRequest : forall b s,
+  GoSrc.RapidResynchronizationRequest_Unmarshal GoSrc.zero_RapidResynchronizationRequest b = Ok s ->
+  forall b', GoSrc.RapidResynchronizationRequest_Marshal s = Ok b' ->
+  GoSrc.RapidResynchronizationRequest_Unmarshal GoSrc.zero_RapidResynchronizationRequest b' = Ok s.
+Proof. exact source_C09_RapidResynchronizationRequest. Qed.
+Print Assumptions C09_src_RapidResynchronizationRequest.
+Theorem C09_src_TransportLayerNack : forall b s,
+  GoSrc.TransportLayerNack_Unmarshal GoSrc.zero_TransportLayerNack b = Ok s ->
+  forall b', GoSrc.TransportLayerNack_Marshal s = Ok b' ->
+  GoSrc.TransportLayerNack_Unmarshal GoSrc.zero_TransportLayerNack b' = Ok s.
+Proof. exact source_C09_TransportLayerNack. Qed.
+Print Assumptions C09_src_TransportLayerNack.
+Theorem C09_src_SliceLossIndication : forall b s,
+  GoSrc.SliceLossIndication_Unmarshal GoSrc.zero_SliceLossIndication b = Ok s ->
+  forall b', GoSrc.SliceLossIndication_Marshal s = Ok b' ->
+  GoSrc.SliceLossIndication_Unmarshal GoSrc.zero_SliceLossIndication b' = Ok s.
+Proof. exact source_C09_SliceLossIndication. Qed.
+Print Assumptions C09_src_SliceLossIndication.
+Theorem C09_src_FullIntraRequest : forall b s,
+  GoSrc.FullIntraRequest_Unmarshal GoSrc.zero_FullIntraRequest b = Ok s -> (1 <= glenl (GoSrc.FullIntraRequest_FIR s))%Z ->
+  forall b', GoSrc.FullIntraRequest_Marshal s = Ok b' ->
+  GoSrc.FullIntraRequest_Unmarshal GoSrc.zero_FullIntraRequest b' = Ok s.
+Proof. exact source_C09_FullIntraRequest. Qed.
+Print Assumptions C09_src_FullIntraRequest.
+Theorem C09_src_fir_zero_entries_refuted : exists b s b',
+  GoSrc.FullIntraRequest_Unmarshal GoSrc.zero_FullIntraRequest b = Ok s /\ GoSrc.FullIntraRequest_Marshal s = Ok b' /\
+  GoSrc.FullIntraRequest_Unmarshal GoSrc.zero_FullIntraRequest b' = Err.
+Proof. exact source_C09_fir_zero_entries_refuted. Qed.
+Print Assumptions C09_src_fir_zero_entries_refuted.
+Theorem C09_src_CCFeedbackReport : forall b s,
+  GoSrc.CCFeedbackReport_Unmarshal GoSrc.zero_CCFeedbackReport b = Ok s -> (glen b <= 262137)%Z ->
+  forall b', GoSrc.CCFeedbackReport_Marshal s = Ok b' ->
+  GoSrc.CCFeedbackReport_Unmarshal GoSrc.zero_CCFeedbackReport b' = Ok s.
+Proof. exact source_C09_CCFeedbackReport. Qed.
+Print Assumptions C09_src_CCFeedbackReport.
+Theorem C09_src_TransportLayerCC : forall b s,
+  GoSrc.TransportLayerCC_Unmarshal GoSrc.zero_TransportLayerCC b = Ok s ->
+  exists t, s = src_twcc t /\
+    (twcc_hdr_consistent t = true -> forall b', GoSrc.TransportLayerCC_Marshal s = Ok b' ->
+     GoSrc.TransportLayerCC_Unmarshal GoSrc.zero_TransportLayerCC b' = Ok s).
+Proof. exact source_C09_TransportLayerCC. Qed.
+Print Assumptions C09_src_TransportLayerCC.
+Theorem C09_src_TransportLayerCC_marshal_never_panics : forall b s,
+  GoSrc.TransportLayerCC_Unmarshal GoSrc.zero_TransportLayerCC b = Ok s -> GoSrc.TransportLayerCC_Marshal s <> Panic.
+Proof. exact source_C09_TransportLayerCC_marshal_never_panics. Qed.
+Print Assumptions C09_src_TransportLayerCC_marshal_never_panics.
+End C09_SourceTheorems.
+(* END source-translation *)
